@@ -188,6 +188,12 @@ Section Generic.
     - left. reflexivity.
   Qed.
 
+  Lemma dedup_go_length : forall l seen, length (dedup_go seen l) = length l.
+  Proof.
+    induction l as [|o l IH]; intro seen; simpl; [reflexivity|].
+    destruct (alookup (method_name (o_id o)) seen); simpl; rewrite IH; reflexivity.
+  Qed.
+
   Lemma suffixed_tags : forall o o', suffixed o o' ->
     o_tags o' = o_tags o /\ o_method o' = o_method o /\ o_path o' = o_path o.
   Proof. intros o o' [->|[c ->]]; repeat split; reflexivity. Qed.
@@ -206,7 +212,7 @@ Section Generic.
     match alookup k d with Some g => g | None => [] end.
 
   Lemma alookup_l_aappend : forall {V} (d : list (str * list V)) k k' (v : V),
-    alookup_l k (aappend d k' v) = alookup_l k d ++ (if str_eqb k k' then [v] else []).
+    alookup_l k (aappend d k' v) = alookup_l k d ++ (if str_eqb k k' then [v] else @nil V).
   Proof.
     unfold alookup_l. induction d as [|[k0 l0] d IH]; intros k k' v; simpl.
     - destruct (str_eqb k k'); reflexivity.
@@ -224,7 +230,7 @@ Section Generic.
   Definition contrib (k : str) (o : op) : list op :=
     map (fun _ => o) (filter (fun t => str_eqb k (tag_key t)) (tags_or_default o)).
 
-  Lemma group_step_lookup : forall o ts k d,
+  Lemma group_step_lookup : forall (o : op) (ts : list str) k (d : list (str * list op)),
     alookup_l k (fold_left (fun d t => aappend d (tag_key t) o) ts d)
     = alookup_l k d ++ map (fun _ => o) (filter (fun t => str_eqb k (tag_key t)) ts).
   Proof.
@@ -308,6 +314,12 @@ Section Generic.
   Lemma same_op_refl : forall o, same_op o o = true.
   Proof. intro o. unfold same_op. rewrite !str_eqb_refl. reflexivity. Qed.
 
+  Lemma filter_none : forall {A} (f : A -> bool) l, (forall b, In b l -> f b = false) -> filter f l = [].
+  Proof.
+    induction l as [|x l IH]; intro H; simpl; [reflexivity|].
+    rewrite (H x (or_introl eq_refl)). apply IH. intros b Hb. apply H. right. exact Hb.
+  Qed.
+
   Lemma count_one : forall (f : op -> bool) l o,
     NoDup l -> In o l -> f o = true -> (forall b, In b l -> f b = true -> o = b) ->
     length (filter f l) = 1%nat.
@@ -317,13 +329,8 @@ Section Generic.
     destruct Hin as [->|Hin].
     - rewrite Hf. simpl. f_equal.
       assert (X : filter f l = []).
-      { clear IH. induction l as [|b l IH2]; simpl; [reflexivity|].
-        destruct (f b) eqn:E.
-        - exfalso. apply Hna. left. symmetry. apply Hu; [right; left; reflexivity | exact E].
-        - apply IH2.
-          + intro. apply Hna. right. assumption.
-          + inversion Hn' ; assumption.
-          + intros b' Hb' Hfb'. apply Hu; [|exact Hfb']. destruct Hb' as [->|Hb']; [left; reflexivity | right; right; exact Hb']. }
+      { apply filter_none. intros b Hb. destruct (f b) eqn:E; [|reflexivity].
+        exfalso. apply Hna. rewrite (Hu b (or_intror Hb) E). exact Hb. }
       rewrite X. reflexivity.
     - destruct (f a) eqn:E.
       + exfalso. apply Hna. rewrite <- (Hu a (or_introl eq_refl) E). exact Hin.
@@ -437,23 +444,55 @@ Section Generic.
   Qed.
 
   (* ---------------------------------------------------------------- the guarded statement *)
+  Definition mp (o : op) : str * str := (o_method o, o_path o).
+  (* (METHOD, path) pairs of a document are pairwise distinct: keys of JSON/YAML objects *)
+  Definition doc_distinct (doc : list raw_op) : Prop :=
+    NoDup (map (fun r => (upper_str (r_method r), r_path r)) (ops doc)).
+
+  Lemma dedup_go_mp : forall l seen, map mp (dedup_go seen l) = map mp l.
+  Proof.
+    induction l as [|o l IH]; intro seen; simpl; [reflexivity|].
+    destruct (alookup (method_name (o_id o)) seen); simpl; rewrite IH; reflexivity.
+  Qed.
+
+  Lemma NoDup_map_inj_in : forall {A B} (f : A -> B) l a b,
+    NoDup (map f l) -> In a l -> In b l -> f a = f b -> a = b.
+  Proof.
+    induction l as [|x l IH]; intros a b Hn Ha Hb E; simpl in *; [contradiction|].
+    inversion Hn as [|? ? Hni Hn']; subst.
+    destruct Ha as [->|Ha]; destruct Hb as [->|Hb]; try reflexivity.
+    - exfalso. apply Hni. rewrite E. apply in_map, Hb.
+    - exfalso. apply Hni. rewrite <- E. apply in_map, Ha.
+    - apply IH; assumption.
+  Qed.
+
+  Lemma distinct_from_mp : forall l, NoDup (map mp l) -> distinct_ops l.
+  Proof.
+    intros l H. split; [apply (NoDup_map_inv mp), H|].
+    intros a b Ha Hb E. apply (NoDup_map_inj_in mp l); try assumption.
+    unfold same_op in E. apply andb_true_iff in E. destruct E as [E1 E2].
+    apply str_eqb_eq in E1, E2. unfold mp. rewrite E1, E2. reflexivity.
+  Qed.
+
   Theorem partial : forall st doc,
+    doc_distinct doc ->
     guard_F07b method_name clean_id st doc = true ->
     guard_F07a method_name (parse st doc) = true ->
     guard_F07c tag_key (parse st doc) = true ->
-    distinct_ops (emitted_ops (parse st doc)) ->
     let e := emitted_ops (parse st doc) in
     length e = length (ops doc)
     /\ once_per_tag tag_key e
     /\ names_unique method_name tag_key e
     /\ client_tags e = Some (emitter_tags e).
   Proof.
-    intros st doc Hb Ha Hc Hd e.
+    intros st doc Hdd Hb Ha Hc e.
     destruct (emitted_unique _ Ha) as [E1 E2].
     assert (Hc' : guard_F07c tag_key e = true) by (unfold e; rewrite emitted_guard_F07c; exact Hc).
+    assert (Hd : distinct_ops e).
+    { apply distinct_from_mp. unfold e, Tags.emitted_ops, Tags.dedup_ops. rewrite !dedup_go_mp.
+      rewrite (guard_none_dropped st doc Hb), map_map. exact Hdd. }
     repeat split.
-    - unfold e. rewrite E1. pose proof (dedup_go_shape (parse st doc) []) as S.
-      apply Forall2_length in S. unfold Tags.dedup_ops. rewrite <- S.
+    - unfold e. rewrite E1. unfold Tags.dedup_ops. rewrite dedup_go_length.
       rewrite (guard_none_dropped st doc Hb). apply map_length.
     - apply once_per_tag_partial; assumption.
     - apply names_unique_partial; assumption.
@@ -574,34 +613,14 @@ Definition doc_ok : list raw_op :=
     {| r_path := s_pa; r_method := [120;45;101]; r_node_ok := false; r_opid := None; r_tags := TAbsent;
        r_resp := []; r_params := [] |} ].
 
-Lemma distinct_ops_dec : forall l : list op,
-  NoDup l ->
-  forallb (fun a => forallb (fun b => negb (same_op a b) ||
-     (str_eqb (o_id a) (o_id b) && list_eqb str_eqb (o_tags a) (o_tags b))) l) l = true ->
-  distinct_ops l.
-Proof.
-  intros l Hn H. split; [exact Hn|]. intros a b Ha Hb E.
-  rewrite forallb_forall in H. specialize (H a Ha). rewrite forallb_forall in H. specialize (H b Hb).
-  rewrite E in H. simpl in H. apply andb_true_iff in H. destruct H as [H1 H2].
-  unfold same_op in E. apply andb_true_iff in E. destruct E as [E1 E2].
-  apply str_eqb_eq in H1, E1, E2.
-  assert (T : o_tags a = o_tags b).
-  { clear - H2. revert H2. generalize (o_tags a) (o_tags b).
-    induction l as [|x l IH]; destruct l0 as [|y l0]; simpl; intro H; try discriminate; [reflexivity|].
-    apply andb_true_iff in H. destruct H as [H1 H2]. apply str_eqb_eq in H1. subst. f_equal. apply IH, H2. }
-  destruct a, b; simpl in *; subst; reflexivity.
-Qed.
-
 Theorem guard_nonvacuous :
-  guard_F07b idf no_clean SOpId doc_ok = true
+  doc_distinct doc_ok
+  /\ guard_F07b idf no_clean SOpId doc_ok = true
   /\ guard_F07a idf (parse idf no_clean SOpId doc_ok) = true
   /\ guard_F07c key_F07c (parse idf no_clean SOpId doc_ok) = true
-  /\ distinct_ops (emitted_ops idf (parse idf no_clean SOpId doc_ok))
   /\ length (ops doc_ok) = 2%nat
   /\ map o_id (emitted_ops idf (parse idf no_clean SOpId doc_ok)) = [s_a; s_a ++ [95;50]].
 Proof.
   repeat split; try (vm_compute; reflexivity).
-  - vm_compute. constructor; [intros [E|[]]; discriminate | constructor; [intros [] | constructor]].
-  - intros a b Ha Hb. vm_compute in Ha, Hb.
-    destruct Ha as [<-|[<-|[]]]; destruct Hb as [<-|[<-|[]]]; vm_compute; intro E; try reflexivity; discriminate.
+  vm_compute. constructor; [intros [E|[]]; discriminate | constructor; [intros [] | constructor]].
 Qed.
